@@ -859,7 +859,11 @@ func (ix *Index) populateDeleteClaim(ctx context.Context, cl schema.Claim, vr *j
 		log.Print(fmt.Errorf("no valid target for delete claim %v", br))
 		return nil
 	}
+	// This runs before ReceiveBlob takes ix.Lock, and GetBlobMeta reads the
+	// corpus, which other receives mutate under that lock.
+	ix.RLock()
 	meta, err := ix.GetBlobMeta(ctx, target)
+	ix.RUnlock()
 	if err != nil {
 		if errors.Is(err, os.ErrNotExist) {
 			if err := ix.noteNeeded(br, target); err != nil {
